@@ -128,7 +128,7 @@ func gen(r *verifsim.Rng, tier string) (any, hx.Sched) {
 	s.MeanGap = verifsim.Pick(r, []int64{30, 100, 300, 1000, 10000})
 	s.FocusWeight = verifsim.Pick(r, []int32{1, 10, 100})
 	s.MaxSteps = 2000000
-	s.MapMode = verifsim.MapSorted
+	s.MapMode = verifsim.Pick(r, []int{verifsim.MapSorted, verifsim.MapSorted, verifsim.MapPerm}) // Go randomises map iteration; the model does not depend on it
 	return w, s
 }
 
